@@ -13,5 +13,10 @@ func Len(v interface{}) int {
 	if rv.Kind() == reflect.Ptr {
 		rv = rv.Elem()
 	}
-	return rv.Len()
+	switch rv.Kind() {
+	case reflect.Array, reflect.Chan, reflect.Map, reflect.Slice, reflect.String:
+		return rv.Len()
+	}
+	// anything else has no length
+	return 0
 }
